@@ -300,7 +300,12 @@ impl ImmutContext<'_> {
                     break;
                 }
                 Symbol::Nonterminal(name) => {
-                    let nonterminal_first_set = self.first_sets.get(&name).unwrap();
+                    // A nonterminal without any rule (an enum with no variants)
+                    // has no first set: it derives nothing.
+                    let Some(nonterminal_first_set) = self.first_sets.get(&name) else {
+                        contains_epsilon = false;
+                        break;
+                    };
                     terminals.extend(nonterminal_first_set.terminals.iter().cloned());
 
                     if !nonterminal_first_set.contains_epsilon {
